@@ -560,7 +560,7 @@ def minimize(
             pb,
             0.0,
             False,
-            ExitStatus.MAX_ITER_WARNING,
+            ExitStatus.MAX_EVAL_WARNING,
             0,
             options,
         )
